@@ -6,4 +6,8 @@ export GOFLAGS=-mod=mod GOPROXY=off GOSUMDB=off GOTOOLCHAIN=local
 mkdir -p .build evidence replays
 cp /repo/go.sum mc/go.sum
 ( cd mc && go build -o ../.build/vcheck ./cmd/vcheck )
+# warm the caches for the overlay (scheduler) and -race builds used by C13/C16
+( cd mc && go build -o ../.build/instr ./cmd/instr ) && .build/instr /repo "$(pwd)/.build/ov" "$(pwd)/mc/shim/vsync/vsync.go" \
+  && ( cd mc && go build -tags verifsched -overlay ../.build/ov/overlay.json -o ../.build/vcheck-sched ./cmd/vcheck \
+       && go build -race -tags verifsched -overlay ../.build/ov/overlay.json -o ../.build/vcheck-race ./cmd/vcheck ) || echo "warning: scheduler/race warm-up build failed"
 echo setup ok
